@@ -82,6 +82,9 @@ def cases(tier, seed):
     # bounding box is much longer than wide), noise-free
     for ratio, pa, snr, ph in itertools.product([2.0, 2.5, 3.0], [0.0, 4.0, 86.0, 90.0, 93.0, 177.0], [12.0, 20.0, 30.0, 45.0], [(0.0, 0.0), (0.35, -0.2)]):
         yield "G", dict(ratio=ratio, pa=pa, snr=snr, phase=list(ph))
+    # I: exactly circular beams (BMAJ == BMIN): the pixel beam's axes then differ by rounding only, with either sign
+    for proj, bpa, crval, ph in itertools.product(PROJ, [0.0, 90.0, 45.0], [(30.0, -40.0), (200.0, 50.0)], [(0.0, 0.0), (0.4, -0.3)]):
+        yield "I", dict(proj=proj, bpa=bpa, crval=list(crval), phase=list(ph))
     # H: images whose reference point IS a celestial pole (the local "North" of the beam and of position angles turns with the
     # right ascension across such an image)
     for proj, pole, spot, pa in itertools.product(["SIN", "ZEA", "TAN"], [90.0, -90.0], [(20.3, 40.2), (33.0, 31.5), (50.4, 12.7)], [-60.0, 10.0, 80.0]):
@@ -228,6 +231,27 @@ def ev_D(case, ctx):
         ctx.violation("finder raised %r (%s)" % (e, sig), "raise|" + sig)
         return
     compare_noisefree(out, src, hdr, beam, ctx, sig, sig)
+
+
+def ev_I(case, ctx):
+    d = os.environ["VERIF_SCRATCH"]
+    cd = 10.0 / 3600
+    shape = (64, 66)
+    beam = (4.0 * cd, 4.0 * cd, case["bpa"])
+    hdr = wz.make_header(case["proj"], tuple(case["crval"]), cd, shape, beam=beam)
+    src = skygauss.source_at_pixel(hdr, 31.0 + case["phase"][0], 33.0 + case["phase"][1], 1.0, 6.4, 4.8, 35.0)
+    f = os.path.join(d, "c01i.fits")
+    scenes.write_image(f, hdr, skygauss.render(hdr, shape, [src]))
+    sig = "I:%s,bpa=%g,crval=%r,phase=%r" % (case["proj"], case["bpa"], tuple(case["crval"]), case["phase"])
+    ctx.count("I")
+    ctx.nontrivial(sig)
+    for docov in (False, True):
+        try:
+            out = run_finder(f, rms=0.01, bkg=0.0, docov=docov)
+        except Exception as e:
+            ctx.violation("finder raised %r (%s)" % (e, sig), "raise|" + sig)
+            return
+        compare_noisefree(out, src, hdr, beam, ctx, sig + ",docov=%s" % docov, sig)
 
 
 def ev_H(case, ctx):
@@ -416,4 +440,4 @@ def ev_C(case, ctx):
 
 
 def evaluate(clause, case, ctx):
-    dict(A=ev_A, B=ev_B, C=ev_C, D=ev_D, E=ev_E, F=ev_F, G=ev_G, H=ev_H)[clause](case, ctx)
+    dict(A=ev_A, B=ev_B, C=ev_C, D=ev_D, E=ev_E, F=ev_F, G=ev_G, H=ev_H, I=ev_I)[clause](case, ctx)
